@@ -643,6 +643,70 @@ func ruleFlagUses(w *World, r *Report) {
 			default:
 				r.OK(key, pos, "consulted for every soft line break; true arm is the <br> arm")
 			}
+			// every path on which SoftLineBreak() is found true consults the flag before the function returns: a fast path
+			// that recognises the soft break, writes the newline and returns bypasses HardWraps. (Two evaluations of the
+			// accessor on the same node agree, so paths on which they disagree are not feasible.)
+			isSoftCall := func(v ssa.Value) (ssa.Value, bool) {
+				c, isC := v.(*ssa.Call)
+				if !isC {
+					return nil, false
+				}
+				if c.Common().IsInvoke() && c.Common().Method.Name() == "SoftLineBreak" {
+					return c.Common().Value, true
+				}
+				if cal := c.Common().StaticCallee(); cal != nil && cal.Name() == "SoftLineBreak" && len(c.Common().Args) > 0 {
+					return c.Common().Args[0], true
+				}
+				return nil, false
+			}
+			nSoftPaths, nBypass := 0, 0
+			var bypassAt ssa.Instruction
+			complete := EnumPaths(fn.Blocks[0], map[string]bool{}, isReturnBlock, func(p Path) {
+				soft := map[ssa.Value]bool{}
+				feasible, sawTrue, sawFlag := true, false, false
+				for i, b := range p.Blocks {
+					if b == iff.Block() {
+						sawFlag = true
+					}
+					if i >= len(p.Edges) {
+						break
+					}
+					i2, isIf := b.Instrs[len(b.Instrs)-1].(*ssa.If)
+					if !isIf {
+						continue
+					}
+					for _, a := range condAtoms(i2.Cond, p.Edges[i] == 0) {
+						if recv, isS := isSoftCall(a.V); isS {
+							if old, has := soft[recv]; has && old != a.Truth {
+								feasible = false
+							}
+							soft[recv] = a.Truth
+							if a.Truth {
+								sawTrue = true
+							}
+						}
+					}
+				}
+				if !feasible || !sawTrue {
+					return
+				}
+				nSoftPaths++
+				if !sawFlag {
+					nBypass++
+					last := p.Blocks[len(p.Blocks)-1]
+					bypassAt = last.Instrs[len(last.Instrs)-1]
+				}
+			})
+			skey := w.FnKey(fn) + ": every soft-break path consults HardWraps"
+			switch {
+			case !complete:
+				r.Unknown(skey, pos, "too many paths")
+			case nBypass > 0:
+				r.Bad(skey, w.InstrPos(bypassAt), fmt.Sprintf("%d of %d feasible paths on which SoftLineBreak() is true return without passing the HardWraps branch: with HardWraps on, that soft break gets no <br>", nBypass, nSoftPaths))
+			default:
+				r.OK(skey, pos, fmt.Sprintf("%d feasible soft-break paths, all pass the flag's branch", nSoftPaths))
+			}
+			r.Expect("feasible paths with SoftLineBreak() true", nSoftPaths, 1)
 		}
 	}
 
